@@ -43,7 +43,11 @@ Lemma add_error_keeps_events (m : text) (w : world) o w' :
   add_error_msg m false w = (o, w') ->
   w_events w' = w_events w /\ (o = OOk tt -> ss_errors (w_state w') <> []).
 Proof.
-  unfold add_error_msg, m_state_res. munfold. cbn.
+  unfold add_error_msg, m_state_res. munfold.
+  destruct (ss_cur_pointer (w_state w)) as [ptr| |]; cbn;
+    try (intros H; inversion H; subst; split; [reflexivity|discriminate]).
+  destruct (ptr_path (root_of w) ptr) as [op| |]; cbn;
+    try (intros H; inversion H; subst; split; [reflexivity|discriminate]).
   match goal with |- context [force_end ?s] => destruct (force_end s) as [s2| |] eqn:F end;
     intros H; inversion H; subst; clear H; (split; [destruct w; reflexivity|]); try discriminate.
   intros _. cbn. apply force_end_errors in F. destruct w as [st s]; destruct s; cbn in *. rewrite F.
